@@ -288,6 +288,25 @@ class Tk2(Sym):
     def __repr__(self):
         return f"<{self.name}>"
 
+    # an option value is opaque: whatever a wrapper derives from it (a copy, a list of its elements, its truth value, a comparison with
+    # None) is another value -- or no information at all
+    def sym_iter(self, ex):
+        return [Tk2(f"element-of-{self.name}")]
+
+    def sym_is(self, ex, other):
+        return self is other
+
+    def sym_eq(self, ex, other):
+        return self is other
+
+    def sym_truth(self, ex):
+        return z3.Bool(f"truthy_{self.name}")
+
+    def sym_getattr(self, ex, name):
+        if name in ("copy", "strip", "lower", "split", "items", "keys", "values"):
+            return NativeStub(lambda *a, **k: Tk2(f"{name}-of-{self.name}"), f"opaque.{name}")
+        raise Unsupported(f"attribute .{name} of an opaque option value")
+
 
 class SyncFrontEnd(Contract):
     """x.sync(other, ...) synchronises FROM other INTO x and hands every option on unchanged"""
